@@ -14,6 +14,48 @@ def showStr (s : Str) : String := bytesToHex (s.map UInt8.ofNat)
                                output of one of the modelled chains (else `unmodelled`); SPECFAIL when it is no such output
                                or is not safe at that chain's place
 -/
+/-! `fmt <lineLen> <off:len,…|-> <nameLen> <subLen>`: impl = `panic` or `ok <pre:match:post;…|->` (lengths of the displayed
+    pieces of the line match); the model predicts the same; SPECFAIL when a well-formed line match (sorted, disjoint,
+    in-range fragments) is not formatted into pieces that tile the line. -/
+
+def parseFrags (s : String) : Option (List Frag) :=
+  if s == "-" then some [] else
+  (s.splitOn ",").mapM fun e =>
+    match e.splitOn ":" with
+    | [a, b] => do pure ⟨← a.toInt?, ← b.toInt?⟩
+    | _ => none
+
+def showPieces (ps : List Piece) : String :=
+  if ps.isEmpty then "-" else ";".intercalate (ps.map fun p => s!"{p.lo - p.preLo}:{p.hi - p.lo}:{p.postHi - p.hi}")
+
+/-- rebuild pieces from the lengths the implementation produced, laid end to end -/
+def piecesOfLengths : Nat → List (Nat × Nat × Nat) → List Piece
+  | _, [] => []
+  | pos, (a, b, c) :: rest => ⟨pos, pos + a, pos + a + b, pos + a + b + c⟩ :: piecesOfLengths (pos + a + b) rest
+
+def parseLengths (s : String) : Option (List (Nat × Nat × Nat)) :=
+  if s == "-" then some [] else
+  (s.splitOn ";").mapM fun e =>
+    match e.splitOn ":" with
+    | [a, b, c] => do pure (← a.toNat?, ← b.toNat?, ← c.toNat?)
+    | _ => none
+
+def handleFmt (n : Nat) (frags : List Frag) (nameLen subLen : Nat) (impl : String) : String :=
+  let model :=
+    if !subPathOk nameLen subLen then "panic" else
+    match formatLine n frags with
+    | none => "panic"
+    | some ps => "ok " ++ showPieces ps
+  let implOut : Option (Option (List Piece)) :=
+    if impl == "panic" then some none
+    else if impl.startsWith "ok " then (parseLengths (impl.drop 3).toString).map fun l => some (piecesOfLengths 0 l)
+    else none
+  match implOut with
+  | none => badCase "fmt impl"
+  | some out =>
+    if subPathOk nameLen subLen && !checkFormat n frags out then specFail model "well-formed-result-not-rendered"
+    else answer model
+
 def handle (line : String) : String :=
   let (inp, impl) := splitCase line
   match fields inp with
@@ -34,6 +76,10 @@ def handle (line : String) : String :=
         | some c => specFail impl ("not-safe-in-" ++ c.name)
         | none => specFail "unmodelled" "value-not-escaped-by-a-modelled-chain"
     | _, _ => badCase "occ fields"
+  | ["fmt", n, fr, nl, sl] =>
+    match n.toNat?, parseFrags fr, nl.toNat?, sl.toNat? with
+    | some n, some frags, some nameLen, some subLen => handleFmt n frags nameLen subLen impl
+    | _, _, _, _ => badCase "fmt fields"
   | _ => badCase "op"
 
 def main : IO Unit := runLines handle
